@@ -370,9 +370,9 @@ func c11Run(c *Ctx) {
 		panic("must run on the instrumented build (deterministic map order)")
 	}
 	defer c11Cleanup()
-	depth := 2
+	depth := 3
 	if !c.Quick() {
-		depth = 3
+		depth = 4
 	}
 	c.Bound("rewrites_per_spelling", fmt.Sprint(depth))
 	graphs := c11Graphs()
